@@ -508,6 +508,33 @@ func (comp) Gen(prop string, rng *rand.Rand, tier string) *core.History {
 
 // Exhaustive: all op sequences of a fixed length (every prefix is observed too) over 2 keys x 2 values.
 func (comp) Exhaustive(prop string, tier string, yield func(*core.History)) {
+	// LARGE-POPULATION histories (beyond the small scope): several hundred keys through one persister (many batches), then RangeKeys,
+	// Close / reopen / RangeKeys; a few keys are probed after every operation
+	for _, kind := range []int{0, 1, 4} {
+		n := 140
+		if tier == "thorough" {
+			n = 300
+		}
+		name := func(j int) []byte { return []byte(fmt.Sprintf("key-%04d", j)) }
+		h := &core.History{}
+		var all []string // the monitors follow the keys of the alphabet: all of them
+		for j := 0; j < n; j++ {
+			all = append(all, core.B(name(j)))
+		}
+		h.SetConfig(core.N(uint64(kind)), core.I(7), core.N(3), core.N(noTimerDelay), core.L(all...))
+		for j := 0; j < n; j++ {
+			h.Add(opPut, "", core.B(name(j)), valTok([]byte{byte(j >> 8), byte(j)}))
+			if j%97 == 5 {
+				h.Add(opRemove, "", core.B(name(j-3)))
+			}
+		}
+		h.Add(opRange, "")
+		h.Add(opClose, "")
+		h.Add(opReopen, "")
+		h.Add(opRange, "")
+		h.Add(opRangeStop, "", core.N(uint64(n/2+1)))
+		yield(h)
+	}
 	ka, kb := []byte("a"), []byte("b")
 	v1, v2 := []byte{0x01}, []byte{}
 	type mk func(h *core.History)
